@@ -267,7 +267,7 @@ def plan(tier: str) -> List[Dict[str, Any]]:
 def main(tier: str, budget_s: Optional[float] = None) -> int:
     t0 = time.time()
     deadline = t0 + (budget_s or (240 if tier == "quick" else 3000))
-    total, info, complete = run_phases(plan(tier), worker, FIRST, SYMBOLS, EXTRA, deadline)
+    total, info, complete = run_phases(plan(tier), worker, FIRST, SYMBOLS, EXTRA, deadline, by_depth=True)
     from rp2verif import bundled as _B
 
     bt = _B.sheets()
